@@ -89,7 +89,7 @@ theorem composite_decodes_equal (flags : Nat) (gmap : Nat → Option Nat) (d out
   have hcut : ∃ cut, i ≤ cut ∧ out = full.take cut := by
     split at h
     · split at h
-      · exact absurd h.symm hne
+      · exact ⟨i, Nat.le_refl _, h.symm⟩
       · exact ⟨_, by omega, h.symm⟩
     · exact ⟨i, Nat.le_refl _, h.symm⟩
   obtain ⟨cut, hcut, hout⟩ := hcut
